@@ -6,6 +6,7 @@ import itertools
 import lang
 from chartgen import ESCAPE_LIKE, chart_text, keyword_like_words, outcome, wide_chars
 from common import cps, rng
+from common import exc_name  # noqa: E402
 
 SYMBOLS = ['"', " ", "=", "[", "]", "a", "é", "lyric", "lyric ", "section", "section ", "♪", "{", "0"]
 
@@ -21,8 +22,8 @@ def observe_line(cid, line):
     rec = {"id": cid, "props": ["C09"], "kind": "line", "line": cps(line), "text": line, "claimed": "none", "tick": [], "value": [], "raised": ""}
     kind, val = parse_events([line])
     if kind == "raise":
-        rec["raised"] = type(val).__name__
-        rec["claimed"] = "raised:" + type(val).__name__
+        rec["raised"] = exc_name(val)
+        rec["claimed"] = "raised:" + exc_name(val)
         return rec
     g = val.global_events_track
     hits = [(k, e) for k, evs in (("lyric", g.lyric_events), ("section", g.section_events), ("text", g.text_events)) for e in evs]
@@ -41,7 +42,7 @@ def observe_seq(cid, lines):
            "got": {"lyric": [], "section": [], "text": []}}
     kind, val = parse_events(lines)
     if kind == "raise":
-        rec["raised"] = type(val).__name__
+        rec["raised"] = exc_name(val)
         return rec
     g = val.global_events_track
     for k, evs in (("lyric", g.lyric_events), ("section", g.section_events), ("text", g.text_events)):
